@@ -137,6 +137,16 @@ impl<'a, 'b> HeaderWriter<'a, 'b> {
     }
 
     pub(crate) fn write_attribute(&mut self, attr: &OwnedAttribute) -> Result<(), AttrWriteError> {
+        // an attribute that does not fit must leave no partial header or value behind
+        let start = self.cursor.position();
+        let res = self.write_attribute_inner(attr);
+        if res.is_err() {
+            let _ = self.cursor.seek_to(start);
+        }
+        res
+    }
+
+    fn write_attribute_inner(&mut self, attr: &OwnedAttribute) -> Result<(), AttrWriteError> {
         let variation = Variation::Group0(attr.variation);
         variation.write(self.cursor)?;
         QualifierCode::Range8.write(self.cursor)?;
